@@ -100,10 +100,17 @@ def check_table(p, mother, table, label):
 
 def check_case(case, tag=""):
     pattern, n, fv = case
-    ast = [["Define", "dm", "0.5"], table_ast(pattern, n, fv, tag)]
+    # the table itself, a CopyDecay copy of it and its CDecay conjugate are all printed
+    ast = [["Define", "dm", "0.5"], table_ast(pattern, n, fv, tag), ["CopyDecay", f"Tcopy{tag}", f"T{tag}"],
+           ["ChargeConj", f"T{tag}", f"Tbar{tag}"], ["CDecay", f"Tbar{tag}"]]
     p = decobs.parse_text(decmodel.render(ast))
-    table = decmodel.semantics(ast)["tables"][f"T{tag}"]
-    return check_table(p, f"T{tag}", table, f"pattern {pattern}, {n} lines, fs variant {fv}")
+    tables = decmodel.semantics(ast)["tables"]
+    fails, ntot = [], 0
+    for m in (f"T{tag}", f"Tcopy{tag}", f"Tbar{tag}", f"T{tag}"):
+        f, k = check_table(p, m, tables[m], f"pattern {pattern}, {n} lines, fs variant {fv}, mother {m}")
+        fails += f
+        ntot += k
+    return fails, ntot
 
 
 def check_special():
